@@ -1,6 +1,7 @@
 package resolve
 
 import (
+	"context"
 	"encoding/binary"
 	"sync"
 	"sync/atomic"
@@ -52,6 +53,12 @@ type InflightRequest struct {
 	ID         uint64
 
 	followerCount atomic.Int32
+
+	// leaderCtx is the leader's own request context; leaderGone records, when the leader finishes
+	// with an error, that this context had ended (client gone, or its deadline passed): the error
+	// is then the leader's own and no failure of the shared work.
+	leaderCtx  context.Context
+	leaderGone bool
 }
 
 func (r *InflightRequest) AddFollower() {
@@ -95,8 +102,9 @@ func (r *InboundRequestSingleFlight) GetOrCreate(ctx *Context, response *GraphQL
 	shard := r.shardFor(key)
 
 	request := &InflightRequest{
-		Done: make(chan struct{}),
-		ID:   key,
+		Done:      make(chan struct{}),
+		ID:        key,
+		leaderCtx: ctx.ctx,
 	}
 
 	shard.mu.Lock()
@@ -110,7 +118,7 @@ func (r *InboundRequestSingleFlight) GetOrCreate(ctx *Context, response *GraphQL
 		select {
 		case <-request.Done:
 			if request.Err != nil {
-				if leaderCancelled(ctx.ctx, request.Err) {
+				if leaderCancelled(ctx.ctx, request.Err) || (request.leaderGone && ctx.ctx.Err() == nil) {
 					// The leader's own client went away; that is not a failure of this request.
 					// The entry is gone, so try again as a leader (or as a follower of a new one).
 					return r.GetOrCreate(ctx, response)
@@ -150,6 +158,7 @@ func (r *InboundRequestSingleFlight) FinishErr(req *InflightRequest, err error) 
 	shard := r.shardFor(req.ID)
 	shard.m.Delete(req.ID)
 	req.Err = err
+	req.leaderGone = req.leaderCtx != nil && req.leaderCtx.Err() != nil
 	close(req.Done)
 }
 
